@@ -161,7 +161,7 @@ impl EngA {
 // ---------------------------------------------------------- (de)serialise ---
 
 fn intern(s: &str) -> &'static str {
-    for k in ["foo", "~1.y", "1.2.3.4", "1.2beta4", "x|y", "|", ">=", " ", "  ", "\t", "X", "*", "x", "||", " ||", "|| ", "  ||  ", " || "] {
+    for k in ["foo", "~1.y", "1.2.3.4", "1.2beta4", "x|y", "|", ">=", " ", "  ", "\t", " \t ", "\t||\t", "X", "*", "x", "||", " ||", "|| ", "  ||  ", " || "] {
         if k == s {
             return k;
         }
@@ -228,7 +228,10 @@ pub fn dev_json(d: &Dev) -> Value {
         Dev::Wild { alt, simple, side, comp, ch } => json!({"k":"wild","alt":alt,"simple":simple,"side":side,"comp":comp,"s":ch}),
         Dev::NoTagHyphen { alt, simple, side } => json!({"k":"nth","alt":alt,"simple":simple,"side":side}),
         Dev::Garbage { alt, pos, tok } => json!({"k":"garbage","alt":alt,"pos":pos,"s":tok}),
-        Dev::Sep { alt, pos } => json!({"k":"sep","alt":alt,"pos":pos}),
+        Dev::Sep { alt, pos, s } => json!({"k":"sep","alt":alt,"pos":pos,"s":s}),
+        Dev::TabLead => json!({"k":"tablead"}),
+        Dev::TabTrail => json!({"k":"tabtrail"}),
+        Dev::VSpace { alt, simple, side } => json!({"k":"vspace","alt":alt,"simple":simple,"side":side}),
         Dev::Or { idx, s } => json!({"k":"or","idx":idx,"s":s}),
         Dev::HyphenSep { alt } => json!({"k":"hsep","alt":alt}),
         Dev::Lead => json!({"k":"lead"}),
@@ -245,7 +248,10 @@ pub fn dev_from(v: &Value) -> Dev {
         "wild" => Dev::Wild { alt: g("alt"), simple: g("simple"), side: g("side"), comp: g("comp"), ch: s() },
         "nth" => Dev::NoTagHyphen { alt: g("alt"), simple: g("simple"), side: g("side") },
         "garbage" => Dev::Garbage { alt: g("alt"), pos: g("pos"), tok: s() },
-        "sep" => Dev::Sep { alt: g("alt"), pos: g("pos") },
+        "sep" => Dev::Sep { alt: g("alt"), pos: g("pos"), s: s() },
+        "tablead" => Dev::TabLead,
+        "tabtrail" => Dev::TabTrail,
+        "vspace" => Dev::VSpace { alt: g("alt"), simple: g("simple"), side: g("side") },
         "or" => Dev::Or { idx: g("idx"), s: s() },
         "hsep" => Dev::HyphenSep { alt: g("alt") },
         "lead" => Dev::Lead,
